@@ -194,6 +194,10 @@ func (p c17) Run(c *core.Ctx) {
 		p.retried(c)
 		return
 	}
+	if c.Index%20 == 8 {
+		p.mapper(c)
+		return
+	}
 	v := genValue(c)
 	docTree := map[string]any{"cfg": map[string]any{"k": v.v, "other": "x"}}
 	b, err := yaml.Marshal(docTree)
@@ -565,4 +569,60 @@ func (p c17) retried(c *core.Ctx) {
 	if len(changed) > 0 && fails > 0 {
 		c.Nontrivial(fmt.Sprint("retried|", fails, changed, s1, s2, i2))
 	}
+}
+
+// mapper: the mapper argument selects the struct tag that names the keys for that one binding; every
+// other binding - in the same component, in other components, in later starts - keeps the default names.
+func (p c17) mapper(c *core.Ctx) {
+	w := func() string { return plainWords[c.Rng.Intn(len(plainWords))] }
+	hy, hj := w()+"y", w()+"j"
+	py, pj := 1+c.Rng.Intn(1000), 1001+c.Rng.Intn(1000)
+	doc := fmt.Sprintf("cfg:\n  k:\n    host-y: %s\n    port-y: %d\n    host-j: %s\n    port-j: %d\n", hy, py, hj, pj)
+	mt := reflect.TypeOf(world.MapperStruct{})
+	wantY, wantJ := world.MapperStruct{Host: hy, Port: py}, world.MapperStruct{Host: hj, Port: pj}
+	type fld struct {
+		tag  string
+		want world.MapperStruct
+	}
+	pool := []fld{
+		{`prefix:"cfg.k,mapper=json"`, wantJ},
+		{`prefix:"cfg.k"`, wantY},
+		{`value:"${cfg.k},mapper=json"`, wantJ},
+		{`value:"${cfg.k}"`, wantY},
+		{`prefix:"cfg.k,mapper=yaml"`, wantY},
+	}
+	for round := 0; round < 2; round++ {
+		var fields []world.FieldSpec
+		var wants []world.MapperStruct
+		n := 1 + c.Rng.Intn(4)
+		if round == 1 {
+			n = 1 + c.Rng.Intn(2)
+		}
+		for i := 0; i < n; i++ {
+			f := pool[c.Rng.Intn(len(pool))]
+			if round == 1 {
+				f = pool[[]int{1, 3}[c.Rng.Intn(2)]] // a later start that never mentions the mapper argument
+			}
+			fields = append(fields, world.FieldSpec{Name: fmt.Sprintf("M%d", i), Type: mt, Tag: f.tag})
+			wants = append(wants, f.want)
+		}
+		h := world.NewHolder(world.BuildStruct(fields))
+		r := world.Start(&world.Scenario{Config: doc}, world.Options{Extra: []any{h}, NoTracer: true})
+		c.Count("starts", 1)
+		detail := map[string]any{"document": doc, "holder": describeHolder(h), "start": round + 1}
+		if r.Outcome() != "ok" {
+			c.Fail("", "start did not succeed: "+core.Short(r.OutcomeDetail(), 300), detail)
+			return
+		}
+		hv := reflect.ValueOf(h).Elem()
+		for i := range fields {
+			got := hv.Field(i).Interface().(world.MapperStruct)
+			if got != wants[i] {
+				c.Fail("", fmt.Sprintf("start %d, field %s `%s`: bound %+v, expected %+v", round+1, fields[i].Name, fields[i].Tag, got, wants[i]), detail)
+				return
+			}
+			c.Count("mapper_bindings_checked", 1)
+		}
+	}
+	c.Nontrivial(fmt.Sprint("mapper|", hy, hj, py, pj))
 }
